@@ -69,6 +69,9 @@ def run(ctx):
             c["real_window"] = True
             c["window_fn"] = wf
             c["nomodel"] = True
+            order = ["hamming", "hann", "boxcar", "blackman"]
+            rng.shuffle(order)
+            c["window_order"] = order[:rng.randint(2, 4)]
             cases.append(c)
     exprs = []
     index = []
@@ -98,7 +101,7 @@ def run(ctx):
         impl.extend(part)
     for c, r in zip(cases, impl):
         small = dict(taps=c["taps"], nb=c["nb"], h=c["h"], window_fn=c.get("window_fn"), real_window=c.get("real_window", False),
-                     calls=[dict(obj=cl["obj"], cache=cl["cache"], x=cl["x"], xi=cl["xi"]) for cl in c["calls"]], seed=c.get("seed", 0))
+                     calls=[dict(obj=cl["obj"], cache=cl["cache"], x=cl["x"], xi=cl["xi"]) for cl in c["calls"]], seed=c.get("seed", 0), window_order=c.get("window_order"))
         ctx.count(small, nontrivial=any(rc["shape"][0] > 0 for rc in r["calls"]))
         ctx.tally("taps", c["taps"]); ctx.tally("branches", c["nb"])
         ctx.tally("input", "complex" if c["calls"][0]["xi"] is not None else "real")
